@@ -41,6 +41,8 @@ type netOpts struct {
 	maxMessageSize int // of node B (the receiver)
 	poolSize       int
 	skipA, skipB   int // number of dummy processes spawned first on each node (to reach particular pid residues)
+	optA, optB     func(o *gen.NodeOptions)
+	isA            bool
 }
 
 func startNetNode(name string, o netOpts) *node {
@@ -51,6 +53,12 @@ func startNetNode(name string, o netOpts) *node {
 	opts.Network.MaxMessageSize = o.maxMessageSize
 	opts.Log.DefaultLogger.Disable = true
 	opts.Log.Level = gen.LogLevelDisabled
+	if o.isA && o.optA != nil {
+		o.optA(&opts)
+	}
+	if !o.isA && o.optB != nil {
+		o.optB(&opts)
+	}
 	n, err := Start(gen.Atom(name), opts, gen.Version{})
 	if err != nil {
 		panic(err)
@@ -154,7 +162,7 @@ func (nw *NetWorld) addLink() *linkEnds {
 func netBody(o netOpts, build func(nw *NetWorld)) func(ex *vsched.Exec) string {
 	return func(ex *vsched.Exec) string {
 		nw := &NetWorld{ex: ex}
-		na := startNetNode("a@localhost", netOpts{})
+		na := startNetNode("a@localhost", netOpts{optA: o.optA, isA: true})
 		nb := startNetNode("b@localhost", o)
 		nw.a = &World{ex: ex, n: na, recs: map[string]*rec{}, pids: map[string]gen.PID{}, tag: "A-"}
 		nw.b = &World{ex: ex, n: nb, recs: map[string]*rec{}, pids: map[string]gen.PID{}, tag: "B-"}
